@@ -70,6 +70,11 @@ func c14Values(deep bool) []namedValue {
 		{"slice-string", []string{"x", "y"}}, {"slice-int", []int{1, 2, 3}}, {"array-int", [2]int{7, 8}},
 		{"map-string", map[string]string{"a": "b"}}, {"map-int", map[string]int{"one": 1, "two": 2}},
 		{"nested-2", map[string]interface{}{"o": map[string]interface{}{"p": "q"}, "l": []interface{}{1.0, "two"}}},
+		// maps whose keys are not strings (encoding/json writes integer keys as strings); many entries, nested values:
+		// the members' identifiers must not depend on the order in which Go happens to enumerate the keys
+		{"map-intkey-12", intKeyed(12)}, {"map-uint8key-slices", map[uint8][]string{3: {"a", "b"}, 1: {"c"}, 2: {"d", "e"}, 9: {"f"}, 7: {"g"}, 5: {"h"}, 4: {"i"}, 8: {"j"}}},
+		{"map-int64key-nested", map[int64]map[string]int{-1: {"a": 1}, 5: {"b": 2}, 3: {"c": 3}, 10: {"d": 4}, 7: {"e": 5}, 2: {"f": 6}, 8: {"g": 7}, 6: {"h": 8}}},
+		{"map-string-12-nested", strKeyedNested(12)},
 	}
 	if deep {
 		vs = append(vs,
@@ -103,6 +108,22 @@ var c14OpKinds = []string{"map.put", "list.insert", "list.insert2", "list.update
 
 // non-value operations
 var c14Plain = []string{"counter.inc1", "counter.incmax", "counter.incmin", "map.remove", "list.delete", "list.deletemany", "doc.delete", "doc.arrdelete", "tx"}
+
+func intKeyed(n int) map[int][]interface{} {
+	m := map[int][]interface{}{}
+	for i := 0; i < n; i++ {
+		m[i*7%n] = []interface{}{float64(i), "v"}
+	}
+	return m
+}
+
+func strKeyedNested(n int) map[string]interface{} {
+	m := map[string]interface{}{}
+	for i := 0; i < n; i++ {
+		m[fmt.Sprintf("k%02d", i*5%n)] = map[string]interface{}{"i": float64(i), "l": []interface{}{"x"}}
+	}
+	return m
+}
 
 func jsonEqual(a, b []byte) bool {
 	var x, y interface{}
@@ -380,6 +401,13 @@ func c14Run(kind string, nv *namedValue) (v *pt.Violation, digest string, produc
 	}
 	if a, b := r0.View(), r1.View(); a != b {
 		return viol(sig("effect-differs"), "%s value %s (%T): origin and a replica that applied the stored operation differ:\n origin: %s\n remote: %s", kind, vname, val, clip(a, 800), clip(b, 800)), digest, len(ops)
+	}
+	// ... and the same structure below the view: the identifiers given to what the operation created are what later
+	// operations address, so the exported snapshots (not only the JSON views) must agree
+	if _, sa := r0.Export(); true {
+		if _, sb := r1.Export(); !jsonEqual([]byte(sa), []byte(sb)) {
+			return viol(sig("effect-differs:snapshot"), "%s value %s (%T): origin and a replica that applied the stored operation show the same view but export different snapshots (identifiers of created nodes differ):\n origin: %s\n remote: %s", kind, vname, val, clip(sa, 800), clip(sb, 800)), digest, len(ops)
+		}
 	}
 	_ = before
 	return nil, digest, len(ops)
